@@ -285,6 +285,10 @@ def execute_threads(sc, stats):
     stats['evals'] += sum(len(th['tasks']) for th in threads)
     stats['steps'] += sum(c.steps for c in baton.clocks) + refclock.steps
     stats['fault:ctx_switch'] += baton.switches
+    if baton.lock_blocks:
+        stats['fault:parked_on_contended_lock'] += baton.lock_blocks
+    if baton.deadlock:
+        stats['probe:deadlock'] += 1
     fam = sc.get('family', 'random')
     stats['fault:schedule_' + fam] += 1 if fam != 'sweep' else 0
     if sc.get('samefn'):
